@@ -99,13 +99,62 @@ def parse_R(out):
 
 
 # ------------------------------------------------------------------ exploration shared by C05 / C06 / C07
-def gen_docs(rng, space, n):
+ATTR_FILES = ["mwlib/parser/treecleaner.py", "mwlib/parser/treecleanerhelper.py", "mwlib/parser/advtree.py",
+              "mwlib/rendering/styleutils.py", "mwlib/rendering/miscutils.py"]
+
+
+def read_attr_names(src):
+    """Literal keys that the anchored sources read from node.attributes / vlist / style (x.get("k"), x["k"], `key in [..]` /
+    `key == ".."` inside AdvancedNode._clean_attrs).  They extend the numeric-attribute alphabet of the generator (every
+    attribute the CURRENT source reads by name gets the full number-spelling sweep).  Pure syntax; a source that cannot be
+    parsed contributes nothing (the static alphabet of c05_gen remains)."""
+    import ast
+    names = set()
+    styles = set()
+    recv = ("attributes", "vlist", "style", "attrs", "attr", "get_style", "get_attributes", "vlist_")
+    for rel in ATTR_FILES:
+        try:
+            tree = ast.parse(open(os.path.join(src, rel), encoding="utf8").read())
+        except (OSError, SyntaxError):
+            continue
+
+        def last_name(e):
+            while isinstance(e, (ast.Call, ast.Subscript)):
+                e = e.func if isinstance(e, ast.Call) else e.value
+            if isinstance(e, ast.Attribute):
+                return e.attr
+            if isinstance(e, ast.Name):
+                return e.id
+            return ""
+
+        for n in ast.walk(tree):
+            if (isinstance(n, ast.Call) and isinstance(n.func, ast.Attribute) and n.func.attr in ("get", "pop", "setdefault", "has_key")
+                    and n.args and isinstance(n.args[0], ast.Constant) and isinstance(n.args[0].value, str)
+                    and last_name(n.func.value) in recv):
+                (styles if "style" in last_name(n.func.value) else names).add(n.args[0].value)
+            elif (isinstance(n, ast.Subscript) and isinstance(n.slice, ast.Constant) and isinstance(n.slice.value, str)
+                  and last_name(n.value) in recv):
+                (styles if "style" in last_name(n.value) else names).add(n.slice.value)
+            elif isinstance(n, ast.FunctionDef) and n.name == "_clean_attrs":
+                for c in ast.walk(n):
+                    if isinstance(c, ast.Compare) and isinstance(c.left, ast.Name):
+                        for comp in c.comparators:
+                            for k in ast.walk(comp):
+                                if isinstance(k, ast.Constant) and isinstance(k.value, str):
+                                    names.add(k.value)
+    ok = lambda x: x and len(x) < 30 and all(ch.isalnum() or ch in "-_" for ch in x)
+    return sorted(x for x in names if ok(x)), sorted(x for x in styles if ok(x))
+
+
+def gen_docs(rng, space, n, first=True):
     docs = []
     if space == 1:
         for t in G.SEEDS:
             docs.append(t)
         while len(docs) < n:
             docs.append(G.adversarial(rng))
+        if first:      # on top of the n documents: numeric attribute x number spelling, exhaustively (small documents)
+            docs.extend(G.numeric_sweep())
     elif space == 3:
         while len(docs) < n:
             docs.append(G.deep(rng))
@@ -271,10 +320,10 @@ def evaluate(exe, results, space):
     return findings, dis, {"snapshots": len(lines)}
 
 
-def explore(run, src, exe, space, ndocs, limit):
+def explore(run, src, exe, space, ndocs, limit, first=True):
     import time
     t0 = time.time()
-    docs = gen_docs(run.rng, space, ndocs)
+    docs = gen_docs(run.rng, space, ndocs, first)
     jobs = [{"id": i, "text": t, "full": True} for i, t in enumerate(docs)]
     results = run_sharded("vt.harness.c05_impl", ["run", str(limit)], jobs, src)
     t1 = time.time()
@@ -399,6 +448,11 @@ def monitor(run, prop, spaces, src, exe):
     all_dis = []
     nsnap = 0
     seen_fp = set()
+    G.set_read_attrs(*read_attr_names(src))
+    run.coverage.setdefault("input_distribution", {})["numeric_attribute_family"] = {
+        "attributes_read_by_name_in_the_current_source": list(G.READ_ATTRS),
+        "style_properties_read_by_name_in_the_current_source": list(G.READ_STYLES), "attribute_alphabet": list(G.NUM_ATTRS),
+        "number_spellings": len(G.NUM_SPELLINGS), "exhaustive_sweep_documents": len(G.numeric_sweep()) if 1 in spaces else 0}
     # corpus first
     for c in load_corpus(run.prop):
         sp = c.get("space", 1)
@@ -412,7 +466,7 @@ def monitor(run, prop, spaces, src, exe):
         while left > 0:
             nb = min(left, 2000)
             left -= nb
-            docs, results, findings, dis, missing, st = explore(run, src, exe, space, nb, limit)
+            docs, results, findings, dis, missing, st = explore(run, src, exe, space, nb, limit, first)
             if missing:
                 run.obligation("harness answered for every document (space %d)" % space, False,
                                "%d documents without result, e.g. %r" % (len(missing), docs[missing[0]][:200]))
@@ -569,7 +623,9 @@ TRUSTED = [
 def check(run):
     run.rule = ("space 1: %d hand-written seeds + grammar-based adversarial wikitext (headings, lists, tables incl. nested/wide/"
                 "single-column, 55 html tags with style/class/id values that switch passes on, refs incl. named, galleries, math, "
-                "links, templates) followed by 0-4 random mutations; space 2: documents of a recursive grammar of ordinary content "
+                "links, templates) followed by 0-4 random mutations, 10% numeric-attribute documents (every numeric attribute x number "
+                "spelling), 5% documents with 2..25 structurally equal offenders under one forbidden ancestor, plus the exhaustive sweep "
+                "attribute read by the source x number spelling; space 2: documents of a recursive grammar of ordinary content "
                 "(unique words, or one repeated fragment) incl. link-only section bodies, multi-block table cells, preformatted blocks; "
                 "space 3: forbidden-nesting pairs / row-copying tables / adversarial documents with one fragment wrapped into 41..%d "
                 "nested tags (passes fail half-way with RecursionError; the tree is checked after the failed pass on the direct and on "
